@@ -228,6 +228,10 @@ func main() {
 		os.Exit(selftest(o))
 	case "c02canon":
 		c02Canon()
+	case "c04probe": // debug: worker c04probe <sites.json> <n>: a hand-made polymorphic-site case under n schedules of each policy
+		sitesPath = os.Args[2]
+		n, _ := strconv.Atoi(os.Args[3])
+		c04Probe(loadSites(os.Args[2]), n)
 	case "c14big": // debug: worker c14big <seed> <n>: cases with an include file over 1 MiB
 		seed, _ := strconv.ParseUint(os.Args[2], 10, 64)
 		n, _ := strconv.Atoi(os.Args[3])
@@ -339,7 +343,7 @@ func shard(o *opts) {
 		if d := time.Since(caseStart).Seconds(); d > res.SlowS {
 			res.SlowS, res.SlowIdx = d, i
 		}
-		if fuelOuts > 0 && guardMaxSteps >= stepFuel/8 && len(out.Violations) > 0 {
+		if fuelOuts > 0 && len(out.Violations) > 0 {
 			c.count("heavy_case_no_verdict", 1)
 			out.Violations = nil
 		}
